@@ -310,3 +310,84 @@ def release_invariants_all():
             else:
                 rep['uncovered'].append('%s: %s' % (key.replace('|', ' :: '), c[:100]))
     return rep
+
+
+def uncontracted_new(unit_names):
+    """Completeness guard: functions (with a body, not compiler-derived) of the default expansion that lie in a module one of the
+    given units works on, are under contract in NO unit (verified or external_body) and match no entry of
+    contracts/COVERAGE_NOTES.json (the reasoned allow-list of code outside the contracts).  On the unchanged tree: none.
+    A hand-written `impl Clone` replacing a derive, a new public function, a new trait impl … show up here."""
+    import json
+    idx, by_start, items = fn_index((), False)
+    # every function named by any @fn of any default-feature unit (verified or not)
+    named = set()
+    mods = set()
+    for vc in sorted(glob.glob(os.path.join(extract.VERIF, 'contracts', '*.vc'))):
+        unit = extract.parse_contract_file(vc)
+        if not unit.name or unit.features or unit.no_default:
+            continue
+        if unit.name in unit_names:
+            mods.update(unit.order)
+        try:
+            plan = extract.collect_unit(items, unit)
+        except extract.Undecided:
+            continue
+        for mp, entries in plan.items():
+            for e in entries:
+                for f, fs in e['fns']:
+                    k = by_start.get(f.start)
+                    if k:
+                        named.add(k)
+                if e['whole'] and e['item'].kind in ('impl', 'trait', 'fn', 'mod'):
+                    # items kept verbatim (e.g. @keep impl /…/, @keep mod private)
+                    def _all(it):
+                        if it.kind == 'fn':
+                            k = by_start.get(it.start)
+                            if k:
+                                named.add(k)
+                        for c in (it.children or []):
+                            _all(c)
+                    _all(e['item'])
+    notes = {}
+    npath = os.path.join(extract.VERIF, 'contracts', 'COVERAGE_NOTES.json')
+    if os.path.exists(npath):
+        notes = json.load(open(npath))
+    out = []
+    for key, (sha, it) in sorted(idx.items()):
+        mod = key.split('|')[0]
+        if mod not in mods or key in named:
+            continue
+        attrs = it.src[it.attrs_start:it.header_start] if it.attrs_start is not None else ''
+        # derived impls: the attribute sits on the impl, look backwards a little
+        pre = it.src[max(0, it.start - 400):it.start]
+        name = key.replace('|', '::')
+        hdr = key.split('|')[1]
+        fname = key.split('|')[2].split('#')[0]
+        if hdr.startswith('impl'):
+            g_, tr_, ty_, wh_ = rsparse.impl_header_info(hdr)
+            if tr_:
+                label = '<%s for %s>' % (re.sub(r'\s+', ' ', tr_), re.sub(r'\s+', ' ', ty_))
+            else:
+                bm = re.match(r'^[&\w:]+', ty_.strip())
+                label = bm.group(0).split('::')[-1] if bm else ty_
+            disp = '%s::%s::%s' % (mod, label, fname)
+        elif hdr.startswith('trait '):
+            disp = '%s::%s::%s' % (mod, hdr, fname)
+        else:
+            disp = '%s::%s' % (mod, fname)
+        if any(re.search(rx, name) or re.search(rx, disp) for rx in notes):
+            continue
+        out.append((key, it))
+    # filter compiler-derived impls (attribute on the enclosing impl)
+    res = []
+    src = None
+    for key, it in out:
+        s_ = it.src
+        # find the enclosing impl start: search backwards for "#[automatically_derived]" between the previous '}' at depth and the fn
+        back = s_[max(0, it.start - 1500):it.start]
+        k = back.rfind('impl')
+        seg = back[max(0, k - 200):k] if k >= 0 else ''
+        if 'automatically_derived' in seg:
+            continue
+        res.append(key.replace('|', ' :: '))
+    return res
